@@ -6,7 +6,7 @@
    run <c|o> <cs01> <ss01> <prog: - | RI,RM,..> <codec01> <csub-cps> <nbatches>
        { <trig: B|k> <nevents> { H <end01> <pbit01> <n> (<k> <v>)* | D <end01> | T <pbit01> <n> (<k> <v>)*
                                 | R | G | L } }
-        -> <obs> | <defect: - or d2c,d2f,..> | <spec: 0|1>
+        -> <obs> | <defect: - or d2c,d2g,..> | <spec: 0|1>
      obs = ok <n> | grpc <status> <client|none|h:cps> <absent|ok|undecodable> | terminated | protocol
          | assertion | binascii | unicode | hang | internal *)
 let rec take_pairs n ws acc =
@@ -77,7 +77,7 @@ let handle = function
     let o = observe csub (bool_of_word codec) k bs in
     let abs_ = alpha csub bs in
     let ds = List.filter_map (fun (n, f) -> if f k abs_ then Some n else None)
-        [("d2c", d2c); ("d2d", d2d); ("d2f", d2f); ("d2g", d2g)] in
+        [("d2c", d2c); ("d2d", d2d); ("d2g", d2g)] in
     show_obs o ^ " | " ^ (if ds = [] then "-" else String.concat "," ds) ^ " | " ^
     word_of_bool (spec_allows abs_ (outcome k abs_))
   | _ -> failwith "unknown command"
